@@ -13,6 +13,18 @@ BOUNDARY_QS = [[(1.5, 0.1)], [(-0.5, 0.1)], [(0.0, 0.1)], [(1.0, 0.1)], [(0.5, -
 LABELS = [b"quantile", b"le", b"__x", b"ab", b"__name__", b"instance", b"job"]
 
 
+KF_TINY = "tiny-summary-max-age"
+
+
+def tiny_stream(cfg):
+    """signature of the known finding: some summary max_age between 0 and 10 ms (stream duration far below any scrape interval)"""
+    if cfg == "unparsable":
+        return False
+    d, rules = cfg
+    ss = [r["summary"] for r in rules if r.get("summary")] + ([d["summary"]] if d and d.get("summary") else [])
+    return any(0 < s["max_age"] < 10**7 for s in ss)
+
+
 def battery(cfg):
     out = []
     for r in cfg[1]:
@@ -44,8 +56,8 @@ def gen_case(rnd):
         elif k >= 8:
             # options of an observer kind on a rule that does not say which kind it is (the defaults, or nothing, decide)
             if k == 8:
-                rules.append(GM.rule(b"iq.*", b"iq", summary=GM.summ(quantiles=rnd.choice(BOUNDARY_QS), max_age=rnd.choice([0, -10**9, 1, 10**9]),
-                                                                     age_buckets=rnd.choice([0, 1, 5]), buf_cap=rnd.choice([0, 1, 500])), help=b"iq"))
+                rules.append(GM.rule(b"iq.*", b"iq", summary=GM.summ(quantiles=rnd.choice(BOUNDARY_QS), max_age=rnd.choice([0, -10**9, 1, 4, 5, 6, 10**9]),
+                                                                     age_buckets=rnd.choice([0, 1, 5, 7]), buf_cap=rnd.choice([0, 1, 500])), help=b"iq"))
             else:
                 rules.append(GM.rule(b"ib.*", b"ib", hist=dict(buckets=rnd.choice(BOUNDARY_BUCKETS)), help=b"ib"))
             if d is not None and rnd.random() < 0.6:
@@ -53,8 +65,8 @@ def gen_case(rnd):
         elif k == 0:
             rules.append(GM.rule(b"bb.*", b"bb", observer_type=b"histogram", hist=dict(buckets=rnd.choice(BOUNDARY_BUCKETS)), help=b"bb"))
         elif k == 1:
-            rules.append(GM.rule(b"bq.*", b"bq", observer_type=b"summary", summary=GM.summ(quantiles=rnd.choice(BOUNDARY_QS), max_age=rnd.choice([0, -10**9, 1, 10**9]),
-                                                                                               age_buckets=rnd.choice([0, 1, 5]), buf_cap=rnd.choice([0, 1, 500])), help=b"bq"))
+            rules.append(GM.rule(b"bq.*", b"bq", observer_type=b"summary", summary=GM.summ(quantiles=rnd.choice(BOUNDARY_QS), max_age=rnd.choice([0, -10**9, 1, 3, 4, 5, 6, 7, 999, 10**9]),
+                                                                                               age_buckets=rnd.choice([0, 1, 5, 7, 1000]), buf_cap=rnd.choice([0, 1, 500])), help=b"bq"))
         elif k == 2:
             rules.append(GM.rule(b"bl.*", b"bl", labels=[(rnd.choice(LABELS), b"v")], observer_type=rnd.choice([None, b"histogram", b"summary"]), help=b"bl"))
         elif k == 3:
@@ -62,7 +74,7 @@ def gen_case(rnd):
             d["hist"] = dict(buckets=rnd.choice(BOUNDARY_BUCKETS)); d["observer_type"] = rnd.choice([None, b"histogram"])
         elif k == 4:
             d = d or GM.defaults()
-            d["summary"] = GM.summ(quantiles=rnd.choice(BOUNDARY_QS), max_age=rnd.choice([0, -10**9, 10**9]))
+            d["summary"] = GM.summ(quantiles=rnd.choice(BOUNDARY_QS), max_age=rnd.choice([0, -10**9, 10**9, 4, 5, 1]), age_buckets=rnd.choice([0, 0, 5, 9]))
         elif k == 5:
             if rnd.random() < 0.4:
                 d = d or GM.defaults()
@@ -78,7 +90,7 @@ def gen_case(rnd):
     for l in lines[:60]:
         ops.append(PE.I(l))
     ops += ["G", "A 700000000000", "S", "G"]
-    return (15, ("none", 0), ops, dict(expected=expected, yaml=GM.to_yaml(cfg)))
+    return (15, ("none", 0), ops, dict(expected=expected, yaml=GM.to_yaml(cfg), tiny_stream=tiny_stream(cfg)))
 
 
 def monitor(rep, case, impl, model, payload):
@@ -101,17 +113,37 @@ def monitor(rep, case, impl, model, payload):
 
 
 def run(rep, tier, seed, replay):
+    directed = [(15, ("none", 0), [GM.load_op((GM.defaults(summary=GM.summ(max_age=5)), [])), PE.I(b"t:1|ms"), "G"], dict(expected="ok", yaml="defaults: summary_options: max_age: 5ns", tiny_stream=True))]
     res = PC.run(rep, "C19", tier, seed, replay, gen_case, monitor, 500, 25000,
            "%(n)d configurations: 35%% invalid (17 classes: syntax, match, name, label key, enum, regex, legacy/new contradictions, unsorted/duplicate buckets, quantile outside [0,1], "
            "negative max_age) and 65%% valid or boundary (empty/Inf/NaN/denormal buckets, quantiles 0 and 1, odd errors, reserved label names le/quantile/__x, huge/negative ttl, "
            "scale 0/negative/NaN/Inf, out-of-range template references), each followed by a battery of lines of every type hitting every rule, reserved tags, unmapped names, a scrape, "
-           "an expiry sweep and a second scrape; non-trivial = configuration that loaded; distinct by YAML text")
+           "an expiry sweep and a second scrape; non-trivial = configuration that loaded; distinct by YAML text",
+           extra_cases=directed, known_hang=lambda meta: KF_TINY if (meta or {}).get("tiny_stream") else None)
     if not replay and res:
         cases, impl, model = res
         items = [(c[2][0].split()[1], i[0] == "L ok", (c[3] or {}).get("yaml", "")) for c, i in zip(cases, impl) if c[2] and c[2][0].startswith("L ")]
         E2E.check_configs(rep, "C19", items, 120 if tier == "quick" else 3000)
-        live = [(c[2][0], [vf.unhex(o[2:]) for o in c[2] if o.startswith("I ")], (c[3] or {}).get("yaml", ""))
+        live = [(c[2][0], [vf.unhex(o[2:]) for o in c[2] if o.startswith("I ")], (c[3] or {}).get("yaml", ""), KF_TINY if (c[3] or {}).get("tiny_stream") else None)
                 for c, i in zip(cases, impl) if c[2] and c[2][0].startswith("L ") and i[0] == "L ok"]
+        # the known finding's own case runs first, always
+        live.insert(0, (GM.load_op((GM.defaults(summary=GM.summ(max_age=5)), [])), [b"t:1|ms", b"t:2|ms", b"u:1|c"], "defaults:\n  summary_options:\n    max_age: 5ns\nmappings: []\n", KF_TINY))
         E2E.run_liveness(rep, "C19", live, 40 if tier == "quick" else 1500, seed)
         rep.cov["rule"] += ("; plus, against the built binary: --check-config on %d of the configurations, and %d of the loadable ones run end to end (start, lines, scrape, reload "
                             "of the same file by /-/reload or SIGHUP, scrape): the process must stay up and answer" % (rep.extra.get("check_config_runs", 0), rep.extra.get("e2e_liveness_runs", 0)))
+    if not replay:
+        # two configurations that load, alternated by a reloader running flat out while timers with the client library's
+        # reserved label names are processed: each event is judged against one configuration, the exporter never panics
+        d = vf.tmpdir("C19")
+        vf.write_lines(f"{d}/reloadsafe.cases", ["700 500"] if tier == "quick" else ["20000 500", "20000 100"])
+        for o in vf.run_hx("reloadsafe", f"{d}/reloadsafe.cases"):
+            rep.count(1)
+            f = dict(x.split("=", 1) for x in o.split(" ", 3)) if o.startswith("events=") else {}
+            rep.extra["reload_interleaving_events"] = rep.extra.get("reload_interleaving_events", 0) + int(f.get("events", 0))
+            rep.extra["reload_interleaving_reloads"] = rep.extra.get("reload_interleaving_reloads", 0) + int(f.get("reloads", 0))
+            if not f or f.get("panics") != "0":
+                rep.violation("reloading between two configurations that both load makes the exporter panic: an event is judged partly against the old and partly against the new defaults",
+                              dict(observed=o, config_a="defaults: observer_type: summary", config_b="defaults: observer_type: histogram",
+                                   input="rs.t<n>:12|ms|#le:0.5 and rs.t<n>:12|ms|#quantile:0.5, names fresh",
+                                   how="harness/cmd/hx/reloadsafe.go: a goroutine alternates InitFromYAMLString(A/B) on the live mapper while Exporter.Listen processes the events"))
+                break
